@@ -65,7 +65,7 @@ struct Run
 	std::vector<std::unique_ptr<udp::socket>> udps; // one per node, port 5300
 	std::vector<std::vector<unsigned char>> udp_bufs; std::vector<std::unique_ptr<udp::endpoint>> udp_from;
 	std::map<int, int> port_node; // local port -> node (for canonical names)
-	bool saw_two_queued = false, saw_accept_after_syn = false, saw_nat = false, saw_refusal = false, saw_overload2 = false, saw_nat_synack = false, saw_shared_ext = false, saw_reaccept = false, saw_v6_beside_nat = false;
+	bool saw_two_queued = false, saw_accept_after_syn = false, saw_nat = false, saw_refusal = false, saw_overload2 = false, saw_nat_synack = false, saw_shared_ext = false, saw_reaccept = false, saw_v6_beside_nat = false, saw_bound_not_listening = false;
 	void fail(std::string m) { if (err.empty()) err = std::move(m); }
 	void tr(std::string s) { trace.push_back(fmt("t=%lld ", now_ns()) + s); }
 
@@ -381,7 +381,7 @@ std::string run_world(Case const& c, Ctx& ctx, bool strip_nat, std::vector<std::
 					Run::Acc& A = R.acc[x];
 					if (y & 1) A.a->close(ec); else A.a->close();
 					A.open = false; A.listening = false; // a pending accept is aborted by the library; one that already completed still reports success
-					A.listen_to.back() = w.events.size();
+					if (!A.listen_to.empty() && A.listen_to.back() == std::size_t(-1)) A.listen_to.back() = w.events.size();
 					R.tr(fmt("close a=%lld", x));
 					break;
 				}
@@ -405,6 +405,30 @@ std::string run_world(Case const& c, Ctx& ctx, bool strip_nat, std::vector<std::
 					unsigned char b[8] = {static_cast<unsigned char>(from), 1, 2, 3, 4, 5, 6, 7};
 					R.udps[std::size_t(from)]->send_to(sa::buffer(b, 8), udp::endpoint(w.addr(to), 5300), 0, ec);
 					R.tr(fmt("udp_tx from=%d to=%d ec=%d", from, to, ec_code(ec)));
+					break;
+				}
+				case 7: // (re-)open and bind an acceptor without listening: connects to it must be refused
+				{
+					if (x < 0 || x >= MAXA || !R.aspec[x].present || R.acc[x].open) { ++ctx.guards_skipped; return; }
+					Run::Acc& A = R.acc[x];
+					tcp::endpoint ep = acc_endpoint(R, int(x));
+					A.a->open(ep.address().is_v6() ? tcp::v6() : tcp::v4(), ec);
+					A.a->bind(ep, ec);
+					if (ec) { A.a->close(ec); R.tr(fmt("bind_only a=%lld bind_failed", x)); return; }
+					A.open = true; A.listening = false; A.ep = ep;
+					R.saw_bound_not_listening = true;
+					R.tr(fmt("bind_only a=%lld ep=%s", x, R.canon(ep).c_str()));
+					break;
+				}
+				case 8: // listen on an acceptor that is open and bound but not listening yet
+				{
+					if (x < 0 || x >= MAXA || !R.aspec[x].present || !R.acc[x].open || R.acc[x].listening) { ++ctx.guards_skipped; return; }
+					Run::Acc& A = R.acc[x];
+					A.a->listen(10, ec);
+					if (ec) { R.fail(fmt("listen on the bound acceptor %lld failed (%d)", x, ec_code(ec))); return; }
+					A.listening = true; ++A.listen_gen;
+					A.listen_from.push_back(w.events.size()); A.listen_to.push_back(std::size_t(-1));
+					R.tr(fmt("listen_late a=%lld", x));
 					break;
 				}
 				default: ++ctx.guards_skipped; return;
@@ -502,6 +526,7 @@ std::string run_world(Case const& c, Ctx& ctx, bool strip_nat, std::vector<std::
 	if (R.saw_shared_ext) sum.labels["shared_external_address"] = 1;
 	if (R.saw_reaccept) sum.labels["reaccept_into_reused_socket"] = 1;
 	if (R.saw_v6_beside_nat) sum.labels["ipv6_connection_from_a_node_whose_ipv4_is_natted"] = 1;
+	if (R.saw_bound_not_listening) sum.labels["acceptor_bound_but_not_listening"] = 1;
 	sum.nontrivial07 = R.saw_two_queued || R.saw_nat || R.saw_refusal || R.saw_overload2;
 	sum.nontrivial13 = any_nat && (R.saw_nat_synack || R.saw_shared_ext) && R.saw_nat;
 	return err;
@@ -545,6 +570,9 @@ rc::Gen<Case> gen_case(bool c13, int maxops)
 		rc::gen::map(kit::range(0, 5), [](long long c) { return std::vector<Rec>{mk("op", {3, c, 0, 0})}; }),
 		rc::gen::map(rc::gen::pair(kit::range(0, 2), kit::range(0, 1)), [](std::pair<long long, long long> p) { return std::vector<Rec>{mk("op", {4, p.first, p.second, 0}), mk("adv", {100}), mk("op", {0, p.first, 0, 0})}; }),
 		rc::gen::map(kit::range(0, 2), [](long long a) { return std::vector<Rec>{mk("op", {5, a, 0, 0})}; }),
+		rc::gen::map(rc::gen::tuple(kit::range(0, 2), kit::range(0, 5), kit::range(0, 2)), [](std::tuple<long long, long long, long long> t) {
+			long long const a = std::get<0>(t);
+			return std::vector<Rec>{mk("op", {4, a, 1, 0}), mk("adv", {100}), mk("op", {7, a, 0, 0}), mk("adv", {1000}), mk("op", {2, std::get<1>(t), a, 0}), mk("adv", {90000}), mk("op", {8, a, 0, 0}), mk("op", {1, a, std::get<2>(t), 0})}; }),
 		rc::gen::map(rc::gen::pair(kit::range(0, 4), kit::range(0, 4)), [](std::pair<long long, long long> p) { return std::vector<Rec>{mk("op", {6, p.first, p.second, 0})}; }),
 		rc::gen::map(kit::weighted({{2, 1}, {3, 10000}, {3, 45000}, {2, 120000}, {1, 500000}}), [](long long us) { return std::vector<Rec>{mk("adv", {us})}; }),
 		rc::gen::map(kit::weighted({{2, 1}, {3, 10000}, {3, 45000}, {2, 120000}}), [](long long us) { return std::vector<Rec>{mk("adv", {us})}; }));
